@@ -44,7 +44,7 @@ def canon(lines):
     out = []
     skip_s = False
     for l in lines:
-        if l.startswith("N ") or l == "X end" or l == "":
+        if l.startswith("N ") or l == "X end" or l == "" or l.startswith("P "):
             continue
         if l.startswith("E fail "):
             msg = l[7:]
